@@ -105,6 +105,10 @@ func runReadCase(c *ReadCase) *Obs {
 		conn.SetReadLimit(*c.Limit)
 	}
 	obs := &Obs{}
+	// no fixed deadline: the case ends when the stream is consumed; only a standstill of 15 s counts as a hang
+	wd := newWatchdog(15 * time.Second)
+	defer wd.stop()
+	rwc.onRead = wd.tick
 	done := make(chan struct{})
 	go func() {
 		defer close(done)
@@ -113,8 +117,7 @@ func runReadCase(c *ReadCase) *Obs {
 				obs.Panic = fmt.Sprint(r)
 			}
 		}()
-		ctx, cancel := context.WithTimeout(context.Background(), 20*time.Second)
-		defer cancel()
+		ctx := wd.ctx
 		bi := 0
 		nmsg := 0
 		for {
@@ -135,6 +138,7 @@ func runReadCase(c *ReadCase) *Obs {
 				}
 				buf := make([]byte, sz)
 				n, err := r.Read(buf)
+				wd.tick()
 				data = append(data, buf[:n]...)
 				if err == io.EOF {
 					obs.Evs = append(obs.Evs, ObsEv{Kind: "msg", Typ: int(typ), Data: data, Class: "nil"})
@@ -153,7 +157,10 @@ func runReadCase(c *ReadCase) *Obs {
 	}()
 	select {
 	case <-done:
-	case <-time.After(25 * time.Second):
+	case <-time.After(10 * time.Minute):
+		obs.Hang = true
+	}
+	if wd.hung.Load() {
 		obs.Hang = true
 	}
 	w := rwc.written()
